@@ -242,7 +242,13 @@ class UUID:
             if self == uuid:
                 if uuid.name is None:
                     uuid.name = self.name
-                return uuid
+                if len(uuid.uuid_bytes) == len(self.uuid_bytes):
+                    return uuid
+                # Same UUID registered with a different width: share its name, but
+                # keep the width this instance was created with, so that it
+                # serializes to the bytes it was parsed from.
+                if self.name is None:
+                    self.name = uuid.name
 
         self.UUIDS.append(self)
         return self
